@@ -26,6 +26,100 @@ Proof.
   destruct (negb (header_matches hroots hver roots)); [intros H; injection H as <-; reflexivity|discriminate].
 Qed.
 
+(* WHICH check refuses: [resume_refusal] names the failing check of [resume_checks], and the error
+   the caller sees is [refusal_err] of it *)
+Theorem refusal_checks hdrdec ct o roots file r :
+  resume_refusal hdrdec ct o roots file = Some r ->
+  resume_checks hdrdec ct o roots file = Err (refusal_err r).
+Proof.
+  unfold resume_checks, resume_refusal.
+  destruct (read_header hdrdec (w_maxh o) file) as [[[[r0 ver] rest] n]|e0]; [|intros H; injection H as <-; reflexivity].
+  destruct (negb (((ver =? 1) && w_v1 o) || ((ver =? 2) && negb (w_v1 o)))); [intros H; injection H as <-; reflexivity|].
+  destruct (w_v1 o).
+  - destruct (read_header hdrdec (w_maxh o) (drop (data_base o) file)) as [[[[hroots hver] rest2] n2]|e2];
+      [|intros H; injection H as <-; reflexivity].
+    destruct (negb (header_matches hroots hver roots)); [intros H; injection H as <-; reflexivity|discriminate].
+  - destruct (negb ct); [intros H; injection H as <-; reflexivity|].
+    destruct (read_v2hdr (drop pragma_size file)) as [[h rest1]|e1].
+    + destruct (negb (h_doff h =? data_base o)); [intros H; injection H as <-; reflexivity|].
+      destruct (read_header hdrdec (w_maxh o) (drop (data_base o) file)) as [[[[hroots hver] rest2] n2]|e2];
+        [|intros H; injection H as <-; reflexivity].
+      destruct (negb (header_matches hroots hver roots)); [intros H; injection H as <-; reflexivity|discriminate].
+    + destruct (read_header hdrdec (w_maxh o) (drop (data_base o) file)) as [[[[hroots hver] rest2] n2]|e2];
+        [|intros H; injection H as <-; reflexivity].
+      destruct (negb (header_matches hroots hver roots)); [intros H; injection H as <-; reflexivity|discriminate].
+Qed.
+
+(* ... and every refusal of the checks is one of the six *)
+Theorem checks_refusal hdrdec ct o roots file e :
+  resume_checks hdrdec ct o roots file = Err e ->
+  exists r, resume_refusal hdrdec ct o roots file = Some r /\ e = refusal_err r.
+Proof.
+  unfold resume_checks, resume_refusal.
+  destruct (read_header hdrdec (w_maxh o) file) as [[[[r0 ver] rest] n]|e0];
+    [|intros H; injection H as <-; eexists; split; reflexivity].
+  destruct (negb (((ver =? 1) && w_v1 o) || ((ver =? 2) && negb (w_v1 o))));
+    [intros H; injection H as <-; eexists; split; reflexivity|].
+  destruct (w_v1 o).
+  - destruct (read_header hdrdec (w_maxh o) (drop (data_base o) file)) as [[[[hroots hver] rest2] n2]|e2];
+      [|intros H; injection H as <-; eexists; split; reflexivity].
+    destruct (negb (header_matches hroots hver roots)); [intros H; injection H as <-; eexists; split; reflexivity|discriminate].
+  - destruct (negb ct); [intros H; injection H as <-; eexists; split; reflexivity|].
+    destruct (read_v2hdr (drop pragma_size file)) as [[h rest1]|e1].
+    + destruct (negb (h_doff h =? data_base o)); [intros H; injection H as <-; eexists; split; reflexivity|].
+      destruct (read_header hdrdec (w_maxh o) (drop (data_base o) file)) as [[[[hroots hver] rest2] n2]|e2];
+        [|intros H; injection H as <-; eexists; split; reflexivity].
+      destruct (negb (header_matches hroots hver roots)); [intros H; injection H as <-; eexists; split; reflexivity|discriminate].
+    + destruct (read_header hdrdec (w_maxh o) (drop (data_base o) file)) as [[[[hroots hver] rest2] n2]|e2];
+        [|intros H; injection H as <-; eexists; split; reflexivity].
+      destruct (negb (header_matches hroots hver roots)); [intros H; injection H as <-; eexists; split; reflexivity|discriminate].
+Qed.
+
+Theorem resume_refused hdrdec k ct o roots file faults r :
+  resume_refusal hdrdec ct o roots file = Some r ->
+  resume hdrdec k ct o roots file faults = inr (refusal_err r, mkdev file [] faults).
+Proof. intros H. apply resume_rejected. apply refusal_checks. exact H. Qed.
+
+Theorem refusal_any_file hdrdec k ct o roots file faults :
+  (forall r, resume_refusal hdrdec ct o roots file = Some r ->
+             resume hdrdec k ct o roots file faults = inr (refusal_err r, mkdev file [] faults)) /\
+  (forall e, resume_checks hdrdec ct o roots file = Err e ->
+             exists r, resume_refusal hdrdec ct o roots file = Some r /\ e = refusal_err r).
+Proof. split; [intros r; apply resume_refused|intros e; apply checks_refusal]. Qed.
+
+(* headers above the caller's MaxAllowedHeaderSize, WHATEVER the limit (below or above the 32 MiB
+   default; since d0c2027 both header reads of a resume run under the caller's limit): a file whose
+   header at the data offset declares more than the limit is never resumed -- if the earlier checks
+   let it through, the refusal is "error reading car header" with the header-too-large class --
+   and it is left untouched *)
+Theorem resume_oversized_header hdrdec k ct o roots file faults l rest :
+  l < two63 -> w_maxh o < l ->
+  drop (data_base o) file = put_uv l ++ rest ->
+  exists r, resume_refusal hdrdec ct o roots file = Some r /\
+            match r with
+            | RMismatch => False
+            | RDataHeader e => e = EHeaderTooLarge
+            | _ => True
+            end /\
+            resume hdrdec k ct o roots file faults = inr (refusal_err r, mkdev file [] faults).
+Proof.
+  intros H63 Hl Hd.
+  assert (Hh : read_header hdrdec (w_maxh o) (drop (data_base o) file) = Err EHeaderTooLarge).
+  { rewrite Hd. unfold read_header, ld_read, ld_read_size. rewrite read_uv_put_uv by exact H63.
+    rewrite Bool.andb_false_r. replace (w_maxh o <? l) with true by lia. reflexivity. }
+  assert (Hr : exists r, resume_refusal hdrdec ct o roots file = Some r /\
+               match r with RMismatch => False | RDataHeader e => e = EHeaderTooLarge | _ => True end).
+  { unfold resume_refusal. rewrite Hh.
+    destruct (read_header hdrdec (w_maxh o) file) as [[[[r0 ver] rest0] n]|e0]; [|eexists; split; [reflexivity|exact I]].
+    destruct (negb (((ver =? 1) && w_v1 o) || ((ver =? 2) && negb (w_v1 o)))); [eexists; split; [reflexivity|exact I]|].
+    destruct (w_v1 o); [eexists; split; reflexivity|].
+    destruct (negb ct); [eexists; split; [reflexivity|exact I]|].
+    destruct (read_v2hdr (drop pragma_size file)) as [[h rest1]|e1]; [|eexists; split; reflexivity].
+    destruct (negb (h_doff h =? data_base o)); [eexists; split; [reflexivity|exact I]|eexists; split; reflexivity]. }
+  destruct Hr as (r & Hr & Hm). exists r. split; [exact Hr|]. split; [exact Hm|].
+  apply resume_refused. exact Hr.
+Qed.
+
 Section Reject.
   Variable hdrdec : bytes -> option (list bytes * N).
   Variables (k : skind) (o : wopts) (nilroots : bool) (roots : list bytes).
@@ -66,6 +160,7 @@ Section Reject.
 
   (* ---- wrong CAR version ------------------------------------------------------------------ *)
   Theorem reject_version c st : fits st ->
+    reopen_refusal hdrdec (with_v1 o (negb (w_v1 o))) roots (cut_file c st) = Some RVersion /\
     reopen hdrdec k (with_v1 o (negb (w_v1 o))) nilroots roots (cut_file c st)
     = inr (EOther, mkdev (cut_file c st) [] []).
   Proof.
@@ -74,9 +169,10 @@ Section Reject.
     { unfold ResumeInv.cut_file. destruct c; [apply live_file_nonempty|].
       destruct (w_v1 o); [apply live_file_nonempty|].
       destruct (ii_flatten _ _); [apply fin_file_nonempty|apply live_file_nonempty]. }
-    rewrite reopen_nonempty by exact Hne.
-    unfold resume. cbn [w_maxh with_v1]. rewrite Hv. cbn [w_v1 with_v1].
-    destruct (w_v1 o); reflexivity.
+    assert (Hr : reopen_refusal hdrdec (with_v1 o (negb (w_v1 o))) roots (cut_file c st) = Some RVersion).
+    { unfold reopen_refusal, resume_refusal. cbn [w_maxh with_v1]. rewrite Hv. cbn [w_v1 with_v1].
+      destruct (w_v1 o); reflexivity. }
+    split; [exact Hr|]. rewrite reopen_nonempty by exact Hne. exact (resume_refused _ _ _ _ _ _ _ _ Hr).
   Qed.
 
   (* ---- what the CARv2 header probe finds ------------------------------------------------------- *)
@@ -152,11 +248,12 @@ Section Reject.
 
   (* ---- different roots ---------------------------------------------------------------------- *)
   Theorem reject_roots c st roots' : fits st -> header_matches roots 1 roots' = false ->
+    reopen_refusal hdrdec o roots' (cut_file c st) = Some RMismatch /\
     reopen hdrdec k o nilroots roots' (cut_file c st) = inr (EOther, mkdev (cut_file c st) [] []).
   Proof.
     intros Hfit Hm.
-    assert (Hchk : resume_checks hdrdec true o roots' (cut_file c st) = Err EOther).
-    { unfold resume_checks. destruct (version_of_cut_file c st Hfit) as (r & rest & n & Hv). rewrite Hv.
+    assert (Hr : reopen_refusal hdrdec o roots' (cut_file c st) = Some RMismatch).
+    { unfold reopen_refusal, resume_refusal. destruct (version_of_cut_file c st Hfit) as (r & rest & n & Hv). rewrite Hv.
       assert (Hver : negb ((((if w_v1 o then 1 else 2) =? 1) && w_v1 o) || (((if w_v1 o then 1 else 2) =? 2) && negb (w_v1 o))) = false)
         by (destruct (w_v1 o); reflexivity).
       rewrite Hver.
@@ -171,19 +268,20 @@ Section Reject.
         assert (H64 : 51 + w_dpad o < two64) by (unfold ResumeInv.fits, two63, two64 in *; lia).
         rewrite data_base_v2 by assumption. cbn [h_doff ResumeInv.fin_hdr]. rewrite N.eqb_refl. cbn [negb].
         rewrite <- (data_base_v2 o Ev H64). rewrite Hih, Hm. reflexivity. }
-    rewrite reopen_nonempty by apply cut_file_nonempty. apply resume_rejected; exact Hchk.
+    split; [exact Hr|]. rewrite reopen_nonempty by apply cut_file_nonempty. exact (resume_refused _ _ _ _ _ _ _ _ Hr).
   Qed.
 
   (* ---- different data padding ---------------------------------------------------------------- *)
   (* finalized file: the padding is recorded in the CARv2 header -- always noticed *)
   Theorem reject_padding_finalized st fi p' :
     fits st -> w_v1 o = false -> p' <> w_dpad o -> 51 + p' < two64 ->
+    reopen_refusal hdrdec (with_dpad o p') roots (fin_file st fi) = Some RDataOffset /\
     reopen hdrdec k (with_dpad o p') nilroots roots (fin_file st fi)
     = inr (EOther, mkdev (fin_file st fi) [] []).
   Proof.
     intros Hfit Ev Hp H64.
-    assert (Hchk : resume_checks hdrdec true (with_dpad o p') roots (fin_file st fi) = Err EOther).
-    { unfold resume_checks. cbn [w_maxh with_dpad].
+    assert (Hr : reopen_refusal hdrdec (with_dpad o p') roots (fin_file st fi) = Some RDataOffset).
+    { unfold reopen_refusal, resume_refusal. cbn [w_maxh with_dpad].
       assert (Hcf : cut_file CFinalize st = fin_file st fi \/ True) by (right; exact I).
       destruct Hpar as [Hhdr [r0 Hprag] Hmaxh Hcid].
     assert (Hp10 : 10 <= w_maxh o) by (pose proof (hdr_ge_10 nilroots roots); unfold ResumeInv.hdr in *; lia).
@@ -194,45 +292,51 @@ Section Reject.
       destruct (probe_fin st fi Hfit) as (rest3 & Hpf). rewrite Hpf.
       rewrite data_base_with_dpad by assumption. cbn [h_doff ResumeInv.fin_hdr].
       replace (51 + w_dpad o =? 51 + p') with false by lia. reflexivity. }
-    rewrite reopen_nonempty by apply fin_file_nonempty. apply resume_rejected; exact Hchk.
+    split; [exact Hr|]. rewrite reopen_nonempty by apply fin_file_nonempty. exact (resume_refused _ _ _ _ _ _ _ _ Hr).
   Qed.
 
   (* non-finalized file: nothing in the file records the padding; the mismatch is noticed only if
      the bytes at the caller's offset are not a matching CARv1 header *)
   Theorem reject_padding_unfinalized st p' :
-    w_v1 o = false ->
+    fits st -> w_v1 o = false ->
     header_at hdrdec (with_dpad o p') roots (live_file st) = false ->
-    exists e, reopen hdrdec k (with_dpad o p') nilroots roots (live_file st)
-              = inr (e, mkdev (live_file st) [] []).
+    reopen_refusal hdrdec (with_dpad o p') roots (live_file st)
+      = Some (refusal_at hdrdec (with_dpad o p') roots (live_file st)) /\
+    reopen hdrdec k (with_dpad o p') nilroots roots (live_file st)
+    = inr (refusal_err (refusal_at hdrdec (with_dpad o p') roots (live_file st)), mkdev (live_file st) [] []).
   Proof.
-    intros Ev Hha.
-    assert (Hchk : exists e, resume_checks hdrdec true (with_dpad o p') roots (live_file st) = Err e).
-    { unfold resume_checks. cbn [w_maxh with_dpad].
-      destruct (read_header hdrdec (w_maxh o) (live_file st)) as [[[[r ver] rest] n]|e0]; [|eexists; reflexivity].
-      destruct (negb (((ver =? 1) && w_v1 (with_dpad o p')) || ((ver =? 2) && negb (w_v1 (with_dpad o p'))))); [eexists; reflexivity|].
-      cbn [w_v1 with_dpad]. rewrite Ev. cbn [negb]. rewrite probe_live by exact Ev.
+    intros Hfit0 Ev Hha.
+    assert (Hr : reopen_refusal hdrdec (with_dpad o p') roots (live_file st)
+                 = Some (refusal_at hdrdec (with_dpad o p') roots (live_file st))).
+    { unfold reopen_refusal, resume_refusal, refusal_at. cbn [w_maxh with_dpad].
+      destruct (version_of_cut_file CDiscard st) as (r & rest & n & Hv); [exact Hfit0|].
+      change (cut_file CDiscard st) with (live_file st) in Hv. rewrite Hv.
+      cbn [w_v1 with_dpad]. rewrite Ev. cbn [N.eqb Pos.eqb andb orb negb]. rewrite probe_live by exact Ev.
       unfold header_at in Hha. cbn [w_maxh with_dpad] in Hha.
       destruct (read_header hdrdec (w_maxh o) (drop (data_base (with_dpad o p')) (live_file st)))
-        as [[[[hroots hver] rest2] n2]|e2]; [|eexists; reflexivity].
-      rewrite Hha. eexists; reflexivity. }
-    destruct Hchk as (e & Hchk). exists e.
-    rewrite reopen_nonempty by apply live_file_nonempty. apply resume_rejected; exact Hchk.
+        as [[[[hroots hver] rest2] n2]|e2]; [|reflexivity].
+      rewrite Hha. reflexivity. }
+    split; [exact Hr|]. rewrite reopen_nonempty by apply live_file_nonempty. exact (resume_refused _ _ _ _ _ _ _ _ Hr).
   Qed.
 
   Lemma finalized_file_live st : w_v1 o = false -> finalized_file (live_file st) = false.
   Proof. intros Ev. unfold finalized_file. rewrite probe_live by exact Ev. reflexivity. Qed.
 
+  Lemma finalized_file_fin st fi : fits st -> finalized_file (fin_file st fi) = true.
+  Proof. intros Hfit. unfold finalized_file. destruct (probe_fin st fi Hfit) as (rest & ->). reflexivity. Qed.
+
   (* the padding clause with its executable guard *)
   Theorem reject_padding c st p' :
     fits st -> w_v1 o = false -> p' <> w_dpad o -> 51 + p' < two64 ->
     finalized_file (cut_file c st) || negb (header_at hdrdec (with_dpad o p') roots (cut_file c st)) = true ->
-    exists e, reopen hdrdec k (with_dpad o p') nilroots roots (cut_file c st)
-              = inr (e, mkdev (cut_file c st) [] []).
+    reopen_refusal hdrdec (with_dpad o p') roots (cut_file c st) = Some (padding_refusal hdrdec (with_dpad o p') roots (cut_file c st)) /\
+    reopen hdrdec k (with_dpad o p') nilroots roots (cut_file c st)
+    = inr (refusal_err (padding_refusal hdrdec (with_dpad o p') roots (cut_file c st)), mkdev (cut_file c st) [] []).
   Proof.
-    intros Hfit Ev Hp H64 Hg.
+    intros Hfit Ev Hp H64 Hg. unfold padding_refusal.
     destruct (cut_file_cases c st) as [E|(_ & fi & E)]; rewrite E in *.
-    - rewrite finalized_file_live in Hg by exact Ev. cbn [orb] in Hg.
-      apply reject_padding_unfinalized; [exact Ev|]. destruct (header_at _ _ _ _); [discriminate|reflexivity].
-    - exists EOther. apply reject_padding_finalized; assumption.
+    - rewrite finalized_file_live in * by exact Ev. cbn [orb] in Hg.
+      apply reject_padding_unfinalized; [exact Hfit|exact Ev|]. destruct (header_at _ _ _ _); [discriminate|reflexivity].
+    - rewrite finalized_file_fin by exact Hfit. apply reject_padding_finalized; assumption.
   Qed.
 End Reject.
